@@ -41,6 +41,11 @@ def gen_cases(tier, seed):
         for sh in range(shards):
             cases.append({"id": "same-checks-%s-%d" % (fam, sh), "sig": ["same-checks", fam, sh], "kind": "meta", "family": fam, "deep": tier == "thorough",
                           "shard": sh, "shards": shards})
+        if fam == "addressing":
+            # what the application stored for the outstanding request is its own business - also when it is a falsy value
+            for stored in ("", 0):
+                cases.append({"id": "same-checks-%s-stored-%r" % (fam, stored), "sig": ["same-checks", fam, "stored", repr(stored)], "kind": "meta", "family": fam,
+                              "deep": tier == "thorough", "shard": 0, "shards": 1, "stored": stored})
     for k in range(2 if tier == "quick" else 8):
         cases.append({"id": "rotation-%d" % k, "sig": ["rotation", k], "kind": "rotation", "k": k})
     for kind in ("foreign-cert", "garbled-cipher", "garbled-key", "empty-cipher", "truncated-encrypted-data",
@@ -201,8 +206,8 @@ def run_meta(case, ctx, viol, counters, sigs):
         sp, idp = _pair(ctx, wrs, was, "one-key")
         plain = fed.issue(idp, ident, sign_response=False, sign_assertion=bool(was) or fam == "signature")
         # sanity: the unmutated pair must be accepted in both forms
-        r0, e0 = fed.deliver(sp, plain, dict(OUT), conv_info={"entity_id": fed.SP_EID, "remote_addr": "0.0.0.0"})
-        r1, e1 = fed.deliver(sp, xk.encrypt_assertions(plain, sp_cert), dict(OUT), conv_info={"entity_id": fed.SP_EID, "remote_addr": "0.0.0.0"})
+        r0, e0 = fed.deliver(sp, plain, {"id-req-1": case.get("stored", "/")}, conv_info={"entity_id": fed.SP_EID, "remote_addr": "0.0.0.0"})
+        r1, e1 = fed.deliver(sp, xk.encrypt_assertions(plain, sp_cert), {"id-req-1": case.get("stored", "/")}, conv_info={"entity_id": fed.SP_EID, "remote_addr": "0.0.0.0"})
         if r0 is None or r1 is None:
             raise RuntimeError("unmutated pair not accepted: plain %r encrypted %r" % (e0, e1))
         if fam == "signature":
@@ -229,6 +234,17 @@ def run_meta(case, ctx, viol, counters, sigs):
                     variants.append(("extra-assertion-%s:%s:all-encrypted" % (sig_kind, where), txt, None))
                     variants.append(("extra-assertion-%s:%s:only-extra-encrypted" % (sig_kind, where), txt, [idx_evil]))
                     variants.append(("extra-assertion-%s:%s:only-genuine-encrypted" % (sig_kind, where), txt, [1 - idx_evil]))
+            # ... and one that carries the genuine assertion's own ID (what was verified for an identifier says nothing about another element
+            # that claims the same identifier): in front of the genuine one, signed by the outsider, alone inside the cipher text
+            evil = xm.evilize(d0.standalone(a0), new_id=a0.attrs["ID"], keep_sig=False)
+            # (signed on its own, as a document of one element: the signing tool refuses a document with two elements of one ID)
+            evil_txt = evil.decode("utf-8") if isinstance(evil, bytes) else evil
+            evil_signed = xk.sign_element(evil_txt, xk.SAML, "Assertion", a0.attrs["ID"], fed.key(9)[0], "rsa-sha256", fed.cert_body(9))
+            if evil_signed.startswith("<?xml"):
+                evil_signed = evil_signed[evil_signed.index("?>") + 2:]
+            txt = d0.insert_before(a0, evil_signed).text()
+            variants.append(("extra-assertion-untrusted-signature-same-id:before:only-extra-encrypted", txt, [0]))
+            variants.append(("extra-assertion-untrusted-signature-same-id:before:all-encrypted", txt, None))
         if fam == "signature" and was:
             # PEFIM-shaped genuine answer (signed plain assertion carrying an encrypted advice assertion) with an attacker-made assertion
             # appended: in the encrypted form there are two EncryptedData in the document and the attacker's is not the first
@@ -248,13 +264,13 @@ def run_meta(case, ctx, viol, counters, sigs):
                 counters["pefim_base_failed:" + type(exc).__name__] = 1
         variants = [v for i, v in enumerate(variants) if i % case.get("shards", 1) == case.get("shard", 0)]
         for name, m, which in variants:
-            rp, ep = fed.deliver(sp, m, dict(OUT), conv_info={"entity_id": fed.SP_EID, "remote_addr": "0.0.0.0"})
+            rp, ep = fed.deliver(sp, m, {"id-req-1": case.get("stored", "/")}, conv_info={"entity_id": fed.SP_EID, "remote_addr": "0.0.0.0"})
             try:
                 menc = xk.encrypt_assertions(m, sp_cert, which=which)
             except Exception:
                 counters["mutants_not_encryptable"] = counters.get("mutants_not_encryptable", 0) + 1
                 continue
-            re_, ee = fed.deliver(sp, menc, dict(OUT), conv_info={"entity_id": fed.SP_EID, "remote_addr": "0.0.0.0"})
+            re_, ee = fed.deliver(sp, menc, {"id-req-1": case.get("stored", "/")}, conv_info={"entity_id": fed.SP_EID, "remote_addr": "0.0.0.0"})
             counters["pairs"] = counters.get("pairs", 0) + 1
             sigs.append(["same-checks", fam, name])
             plain_rej, enc_acc = rp is None, re_ is not None
